@@ -76,6 +76,27 @@ func (t *Collection) reclaimMarkUpdate(nloc *nodeLoc,
 	return n
 }
 
+// reclaimMarkClear removes reclaimMark from every cached node below nloc.  A
+// mutation that fails half way has already marked nodes of a tree that stays
+// current; left in place, those marks would let the next successful mutation
+// reclaim nodes that are still in use.
+func (t *Collection) reclaimMarkClear(nloc *nodeLoc, reclaimMark *node) {
+	if nloc.isEmpty() {
+		return
+	}
+	n := nloc.Node()
+	if n == nil || n == reclaimMark {
+		return
+	}
+	t.rootLock.Lock()
+	if n.next == reclaimMark {
+		n.next = nil
+	}
+	t.rootLock.Unlock()
+	t.reclaimMarkClear(&n.left, reclaimMark)
+	t.reclaimMarkClear(&n.right, reclaimMark)
+}
+
 // markAllUnlocked marks every cached, not yet marked node below nloc as
 // reclaimable with reclaimMark.  The caller holds t.rootLock.
 func (t *Collection) markAllUnlocked(nloc *nodeLoc, reclaimMark *node) {
